@@ -475,6 +475,8 @@ def rule_all(ctx, tu, R):
             it.cur = tu.fn(der + "::Iterate")
             it.call("Iterate", [])
             for nm in ("GetProgress", "SampleOnInterval", "SampleOnTSample", "CheckTMax"):
+                if nm not in tu.classes[base].methods:
+                    continue        # merged into its caller: interpreted there, through Iterate -> SamplingStep
                 it.cur = tu.fn(base + "::" + nm)
                 it.call(nm, [])
             report(ctx, R, it, der)
